@@ -84,7 +84,8 @@ def run(ctx):
             need.append(k)
     sexprs = [(["P%d" % items[k].pidx, "g%d" % k],
                "match goal_stats %d P%d [] [] g%d with Some (m, n) => (m * 100000 + n)%%N | None => 0%%N end" % (FUEL, items[k].pidx, k)) for k in need]
-    sexprs += [(["P%d" % items[k].pidx, "g%d" % k], logic.bb("f7q_class %d P%d g%d" % (FUEL, items[k].pidx, k))) for k in need]
+    sexprs += [(["P%d" % items[k].pidx, "g%d" % k], "((if f7q_class %d P%d g%d then 1 else 0) + (if f7n_class %d P%d g%d then 2 else 0))%%N"
+                % (FUEL, items[k].pidx, k, FUEL, items[k].pidx, k)) for k in need]
     scodes, failures = logic.coq_codes(ctx.work, "stats", defs, sexprs, shard=max(8, len(sexprs) // 16 + 1))
     if failures:
         raise core.CheckFailure("coq evaluation failed: %s" % (failures[0],))
@@ -133,8 +134,10 @@ def run(ctx):
             else:
                 what = "wrong-definite-answer"
             f = ctx.match_known(it.key())
-            if not f and cname.startswith("slg") and what == "wrong-definite-answer" and truth == 1 and f7q_of.get(k) == 1:
+            if not f and cname.startswith("slg") and what == "wrong-definite-answer" and truth == 1 and (f7q_of.get(k, 0) & 1):
                 f = ctx.match_known(None, "F7q")
+            if not f and cname.startswith("slg") and what == "panic" and logic.panic_site(ans) == "panic:chalk-engine/src/logic.rs" and (f7q_of.get(k, 0) & 2):
+                f = ctx.match_known(None, "F7n")
             if f:
                 ctx.known_finding(f, "%s | %s | %s" % (cname, it.goal_text, kind))
                 ctx.cov["known_class_hits"] = ctx.cov.get("known_class_hits", 0) + 1
